@@ -7,6 +7,7 @@ import TongoModel.Address
 import TongoProofs.Lemmas.Crc16Lin
 import TongoProofs.Lemmas.Base64Bits
 import TongoProofs.Lemmas.AddrRoundtrip
+import TongoProofs.Lemmas.AddrRoot
 /-! Property C17 — account addresses and shard ids keep their meaning across all forms.
 Property theorems only (helper lemmas live in TongoProofs/Lemmas).
 
@@ -183,6 +184,15 @@ theorem parse_dispatch :
     (∀ (url : Bool) (a : AccountID) (b t : Bool), a.WF → a.wc = (a.wc.setWidth 8).signExtend 32 →
       (∃ e, fromRaw (toHumanAlpha url a b t) = .err e) ∧ (∀ x, fromRaw (toHumanAlpha url a b t) ≠ .ok x) ∧
       parseAccountID (toHumanAlpha url a b t) = .ok a) := Address.parse_dispatch
+
+/-- root package `tongo.ParseAddress` / `MustParseAddress`: the flags are part of what the friendly form means — for int8
+workchains, all four flag combinations and both alphabets the SAME account id and the SAME bounce flag come back (the
+testnet flag has no field in `ton.Address`); the raw form parses as bounceable. (The unfixed code computed
+`b[0]&0x11 == 0x11`, true for both tags; fixed in the repository, see known_findings.) -/
+theorem parse_address_flags (url : Bool) (a : AccountID) (b t : Bool) (h : a.WF)
+    (hw : a.wc = (a.wc.setWidth 8).signExtend 32) :
+    parseAddress (toHumanAlpha url a b t) = .ok (a, b) ∧ parseAddress (toRaw a) = .ok (a, true) :=
+  ⟨Address.parseAddress_human url a b t h hw, Address.parseAddress_raw a h⟩
 
 /-- JSON: the quoted raw form parses back -/
 theorem json_roundtrip (a : AccountID) (h : a.WF) : fromJSON (toJSON a) = .ok a := Address.json_roundtrip a h
